@@ -380,11 +380,12 @@ class AffineDomain(Domain):
         if isinstance(op, ast.Pow):
             if b.is_poly() and b.poly().is_const():
                 k = b.poly().const_value()
-                if k.denominator == 1 and 0 <= k <= 6:
+                if k.denominator == 1 and -6 <= k <= 6:
                     out = mkA(1)
-                    for _ in range(int(k)):
+                    for _ in range(abs(int(k))):
                         out = A(out.num * a.num, out.den * a.den)
-                    return self.norm(out)
+                    out = self.norm(out)
+                    return out if k >= 0 else self.div(mkA(1), out)
                 if k == Fraction(1, 2):
                     return A(Poly.atom(("sqrt", a.key(), repr(a), a)))
             return A(Poly.atom(("fn", "pow", (a.key(), b.key()), (repr(a), repr(b)))))
